@@ -132,7 +132,7 @@ class GpLinearInverter:
         self.hyperpar_labels = [*self.mean.hyperpar_labels, *self.cov.hyperpar_labels]
 
         self.sigma = diag(y_err**2)
-        self.inv_sigma = diag(y_err**-2)
+        self.inv_sigma = diag(1.0 / y_err**2)
         self.I = eye(self.A.shape[1])
 
     def calculate_posterior(self, theta: ndarray):
